@@ -510,6 +510,9 @@ def check_osdd_array(case, cc):
             src = [float(x) for x in arr.reshape(-1)]
             if not all(math.isfinite(x) for x in src):
                 continue        # a value beyond the range of single precision
+            if dt == 'float32' and not all(Fraction(1, 10 ** 37) < abs(Fraction(q)) < Fraction(10) ** 37
+                                           for q in (s1, s2, Fraction(s1) / Fraction(s2))):
+                continue        # a scale factor beyond the range of single precision (numpy applies it in the array's precision)
             try:
                 U.convert_array_inplace(arr, u1, u2)
             except Exception as err:  # noqa
